@@ -126,7 +126,7 @@ func failingAct(k string) bool {
 	return false
 }
 
-func replyAct(k string) bool { return k == "reply" || k == "" || k == "reply_twice" }
+func replyAct(k string) bool { return k == "reply" || k == "" || k == "reply_twice" || k == "reply_many" }
 
 // tokenUses counts ops per token.
 func tokenUses(h *History) map[string]int {
@@ -517,6 +517,11 @@ func checkContent(h *History, vs []*opView) {
 		}
 		if meta.Up != v.outcome.Forward {
 			h.S.Fail("C10", "wrong-upstream-data", "%s: answer came from upstream %s, rule selects %s", name, meta.Up, v.outcome.Forward)
+		}
+		if len(v.q.Q) == 1 && (meta.Class != v.q.Q[0].Class || meta.Type != v.q.Q[0].Type) && nrec > 0 {
+			// whatever the question section says: these records were produced for another question
+			h.S.Fail("C04", "foreign-answer", "%s asked class %d type %d but the records were generated for class %d type %d (upstream %s serial %d)", name, v.q.Q[0].Class, v.q.Q[0].Type, meta.Class, meta.Type, meta.Up, meta.Serial)
+			continue
 		}
 		if len(m.Q) != 1 || len(v.q.Q) != 1 || !m.Q[0].Name.EqualFold(v.q.Q[0].Name) || m.Q[0].Type != v.q.Q[0].Type || m.Q[0].Class != v.q.Q[0].Class {
 			continue // C03 reports it (and C07 when it came from the cache)
